@@ -1075,9 +1075,11 @@ Proof.
   repeat split; try lia; try (right; reflexivity); try (left; reflexivity).
   exists [2;0;0;0; 3;13; 7;0;0;0; 8;0;0;0; 9;0;0;0], [7;0;0;0; 8;0;0;0; 9;0;0;0]. split; [|split].
   - cbn. split; reflexivity.
-  - unfold LevelBlock. cbn [N.eqb]. exists [3;13], [1;0;1;1;0;0;0;0]. repeat split; try (vm_compute; reflexivity); try (cbn; lia).
-    exists [RLit [1;0;1;1;0;0;0;0]]. repeat split; try (vm_compute; reflexivity).
-    repeat constructor; cbn; try lia; vm_compute; reflexivity.
+  - unfold LevelBlock. cbn [N.eqb]. exists [3;13], [1;0;1;1;0;0;0;0].
+    split; [reflexivity|]. split; [reflexivity|]. split; [|split; [cbn; lia|reflexivity]].
+    exists [RLit [1;0;1;1;0;0;0;0]]. split; [|split; reflexivity].
+    constructor; [|constructor]. cbn [wf_run]. split; [reflexivity|]. split; [|reflexivity].
+    repeat constructor.
   - left. split; [reflexivity|vm_compute; reflexivity].
 Qed.
 
